@@ -188,7 +188,7 @@ def cases(tier):
                 for dflt in ("none", "first", "second"):
                     if dflt == "first" and kname(k1) not in DEFAULT or dflt == "second" and kname(k2) not in DEFAULT:
                         continue
-                    if tier == "quick" and dflt != "none" and req not in ((False, False), (True, False)):
+                    if tier == "quick" and dflt != "none" and req not in ((False, False), (True, False), (False, True)):
                         continue
                     yield {"labels": [f"k1={kname(k1)}", f"k2={kname(k2)}", f"form={form}", f"req={int(req[0])}{int(req[1])}"] + ([f"default={dflt}"] if dflt != "none" else []),
                            "payload": {"mode": "pair", "k1": k1, "k2": k2, "form": form, "req": list(req), "default": dflt}}
@@ -394,7 +394,7 @@ def _pair(p):
                 viol.append({"oracle": "roundtrip", "site": p["form"], "key": pairkey, "detail": f"instance {inst!r} valid for both members does not decode: {rt['error']}"})
             elif not K.json_eq(rt["encode"], inst):
                 viol.append({"oracle": "roundtrip", "site": p["form"], "key": pairkey, "detail": f"{inst!r} -> {rt['encode']!r}"})
-            if any(p["req"]) and p["default"] == "none" and rt.get("absent_ok"):
+            if any(p["req"]) and rt.get("absent_ok"):      # (a declared default does not make a required key optional on the wire)
                 viol.append({"oracle": "requiredness", "site": p["form"], "key": f"req{int(p['req'][0])}{int(p['req'][1])}/decode", "detail": f"p is required by a member but from_dict accepts its absence ({pairkey})"})
     seen, uniq = set(), []
     for v in viol:
